@@ -10,11 +10,10 @@ open TornadoModel.C21
 def entityBodies : List Str :=
   [[97, 109, 112, 59], [108, 116, 59], [103, 116, 59], [113, 117, 111, 116, 59], [35, 120, 50, 55, 59]]
 
-def startsWith (p : Str) : Str → Bool
-  | s => match p, s with
-    | [], _ => true
-    | _ :: _, [] => false
-    | a :: p', b :: s' => a = b && startsWith p' s'
+def startsWith : Str → Str → Bool
+  | [], _ => true
+  | _ :: _, [] => false
+  | a :: p, b :: s => a = b && startsWith p s
 
 /-- escaped text: no `<`, `>`, `"`, `'`, and every `&` starts one of the five introduced entities -/
 def escapeSafe : Str → Bool
